@@ -45,15 +45,17 @@ const uint8_t FLAGS[4] = {0x00, 0x01, 0x80, 0xFF};
 void case_lookup_enum(Ctx &c) {
   Sim s(c); s.init_bare();
   int U = c.param;   // universe size: 8 (quick) / 10 (thorough)
-  std::vector<uint32_t> uni;
-  for (int idx = 0x2000; idx < 0x2004 && (int)uni.size() < U; idx++) for (int sub = 0; sub < 3 && (int)uni.size() < U; sub++) uni.push_back(CO_DEV(idx, sub == 2 ? 0xFF : sub));
+  // the universe spans the whole 16-bit index space (first/last valid index, both sides of 8000h, neighbours that
+  // differ only in the sub-index)
+  static const uint32_t UNI[10] = {CO_DEV(0x0001, 0), CO_DEV(0x1000, 0), CO_DEV(0x1000, 1), CO_DEV(0x1000, 0xFF), CO_DEV(0x7FFF, 0xFF), CO_DEV(0x8000, 0), CO_DEV(0xA040, 1), CO_DEV(0xFFFF, 0xFF), CO_DEV(0x2000, 0), CO_DEV(0xFFFF, 0xFE)};
+  std::vector<uint32_t> uni(UNI, UNI + U); std::sort(uni.begin(), uni.end());
   uint32_t mask = c.t.below(1u << U);
   std::vector<uint32_t> keys;
   for (int i = 0; i < U; i++) if (mask & (1u << i)) keys.push_back(uni[i] | ((i * 37 + 1) & 0xFF));
   Dict d; d.build(s, keys);
   VLOG(c, "dictionary mask %03X (%d entries)", mask, d.n);
   d.init_walk(s);
-  static const uint32_t EXTRA[8] = {CO_DEV(0x1FFF, 0xFF), CO_DEV(0x2004, 0), CO_DEV(0xFFFF, 0xFF), CO_DEV(0x0001, 0), CO_DEV(0x2000, 3), CO_DEV(0x2001, 0xFE), CO_DEV(0x2000, 2), CO_DEV(0x0000, 1)};
+  static const uint32_t EXTRA[8] = {CO_DEV(0x0FFF, 0xFF), CO_DEV(0x1001, 0), CO_DEV(0xFFFF, 0xFD), CO_DEV(0x0001, 1), CO_DEV(0x1000, 2), CO_DEV(0x8000, 1), CO_DEV(0x7FFF, 0xFE), CO_DEV(0x0000, 1)};
   uint32_t p = c.t.below((uint32_t)U + 8), fl = c.t.below(4);
   uint32_t key = (p < (uint32_t)U ? uni[p] : EXTRA[p - U]) | FLAGS[fl];
   d.probe(s, key);
@@ -67,8 +69,21 @@ void case_lookup_random(Ctx &c) {
   Sim s(c); s.init_bare();
   static const uint32_t M[3] = {1, 2, 255};
   int n = (int)c.t.biased(0, 400, M, 3);
-  std::vector<uint32_t> keys; uint32_t k = CO_DEV(0x1000 + c.t.below(0x1000), 0);
-  for (int i = 0; i < n; i++) { k += (1 + c.t.below(c.t.coin() ? 3 : 600)) << 8; if (k >= 0xFFFFFF00u - 0x100000) break; keys.push_back(k | c.t.byte()); }
+  // keys anywhere in the 16-bit index / 8-bit sub-index space: clustered runs (records with many sub-indices, neighbouring
+  // indices) and far jumps, so that dictionaries span 0001h..FFFFh like real ones (communication objects at 1000h.. next to
+  // manufacturer objects at 2000h.., device profile objects at 6000h.. and network variables at A000h..)
+  std::vector<uint32_t> keys; std::vector<uint32_t> raw;
+  { uint32_t cur = CO_DEV(1 + c.t.below(0xFFFF), c.t.byte());
+    for (int i = 0; i < n; i++) {
+      uint32_t how = c.t.below(8);
+      if (how < 4) cur += (1 + c.t.below(3)) << 8;                         // next sub-indices
+      else if (how < 6) cur = (cur & 0xFFFF0000u) + 0x10000u * (1 + c.t.below(4)) + ((uint32_t)c.t.below(3) << 8);   // next indices
+      else cur = CO_DEV(1 + c.t.below(0xFFFF), c.t.chance(128) ? 0 : c.t.byte());                                       // anywhere
+      if (CO_GET_IDX(cur) == 0) cur = CO_DEV(1, 0);
+      raw.push_back(CO_GET_DEV(cur));
+    }
+    std::sort(raw.begin(), raw.end()); raw.erase(std::unique(raw.begin(), raw.end()), raw.end());
+    for (uint32_t k : raw) keys.push_back(k | c.t.byte()); }
   Dict d; d.build(s, keys);
   VLOG(c, "dictionary of %d entries", d.n);
   d.init_walk(s);
